@@ -7,6 +7,17 @@ T12 = ' '.join('T%d' % i for i in range(12))
 T11 = ' '.join('T%d' % i for i in range(11))
 TS = lambda n: ''.join('crypto ipsec ikev1 transform-set T%d esp-3des esp-md5-hmac\n' % i for i in range(n))
 
+PAN = ('<?xml version="1.0"?>\n<config><devices><entry><vsys><entry name="vsys1"><rulebase><security><rules>\n'
+       '<entry name="r1"><action>allow</action><from><member>any</member></from><to><member>any</member></to><source><member>%s</member></source>'
+       '<destination><member>any</member></destination><service><member>any</member></service><application><member>any</member></application></entry>\n'
+       '</rules></security></rulebase>\n<address-group><entry name="g1"><static><member>%s</member></static></entry>%s</address-group>\n'
+       '</entry></vsys></entry></devices></config>\n')
+PANS = ('<?xml version="1.0"?>\n<config><devices><entry><vsys><entry name="vsys1"><rulebase><security><rules>\n'
+        '<entry name="r1"><action>allow</action><from><member>any</member></from><to><member>any</member></to><source><member>any</member></source>'
+        '<destination><member>any</member></destination><service><member>sg1</member></service><application><member>any</member></application></entry>\n'
+        '</rules></security></rulebase>\n<service-group><entry name="sg1"><members><member>sg1</member></members></entry></service-group>\n'
+        '</entry></vsys></entry></devices></config>\n')
+
 CASES = [
     # (name, model, device, netspoc, raw)
     ('acl-ends-after-permit', 'ASA', 'access-list a extended permit\n', '', None),
@@ -56,6 +67,20 @@ CASES = [
      'crypto map cm 9223372036854775808 set nat-t-disable\n', '', None),
     ('tabs', 'ASA', 'access-list\ta extended permit ip any4 any4\naccess-list a extended\tpermit ip any4 any4\ninterface Ethernet0/0\n\tnameif outside\n nameif\tinside\n', '', None),
     ('linux-proto-last', 'Linux', 'ip route add 10.0.0.0/24 dev eth0 proto\n', 'ip route add 10.0.0.0/24 via 10.1.1.1\n', None),
+    # F-C20-11 .. 13 (found by reading, outside the enumerated family): JSON null in an NSX list, a PAN-OS group that is member
+    # of itself (stack overflow), PAN-OS raw file merged into a config with empty <devices>
+    ('nsx-null-rule', 'NSX', '{"policies":[{"id":"Netspoc-v1","rules":[null]}]}', '{"policies":[{"id":"Netspoc-v1","rules":[null]}]}', None),
+    ('nsx-null-policy', 'NSX', '{"policies":[null]}', '', None),
+    ('nsx-null-group', 'NSX', '', '{"groups":[null]}', None),
+    ('nsx-null-expression', 'NSX', '{"groups":[{"id":"Netspoc-g0","expression":[null]}]}', '', None),
+    ('nsx-null-service', 'NSX', '', '{"services":[null]}', None),
+    ('nsx-null-service-entry', 'NSX', '{"services":[{"id":"Netspoc-s","service_entries":[null]}]}', '', None),
+    ('nsx-null-in-raw', 'NSX', '', '{"policies":[]}', '{"policies":[{"id":"Netspoc-v1","rules":[null]}]}'),
+    ('panos-group-member-of-itself', 'PAN-OS', PAN % ('g1', 'g1', ''), PAN % ('g1', 'g1', ''), None),
+    ('panos-groups-in-a-circle', 'PAN-OS', '', PAN % ('g1', 'g2', '<entry name="g2"><static><member>g1</member></static></entry>'), None),
+    ('panos-service-group-member-of-itself', 'PAN-OS', '', PANS, None),
+    ('panos-empty-devices-with-raw', 'PAN-OS', '<?xml version="1.0"?>\n<config><devices></devices></config>\n',
+     '<?xml version="1.0"?>\n<config><devices></devices></config>\n', PAN % ('g1', '10.1.1.1', '<entry name="h"><static><member>10.1.1.1</member></static></entry>')),
     ('info-null', 'INFO', 'null', '', None),
     ('info-array', 'INFO', '[]', '', None),
     ('info-empty-object', 'INFO', '{}', '', None),
